@@ -140,7 +140,7 @@ Proof.
   intro pat. unfold compile. rewrite add_state_spec. cbn [app nlen].
   destruct (compile_loop_spec (S (length pat)) pat [mkS [] false] (to_state_id 0)) as (r & E & _).
   - lia.
-  - cbn. lia.
+  - rewrite to_state_id_id. cbn [nlen]. lia.
   - eauto.
 Qed.
 
@@ -150,6 +150,6 @@ Proof.
   intro pat. unfold compile, malformed. rewrite add_state_spec. cbn [app nlen].
   destruct (compile_loop_spec (S (length pat)) pat [mkS [] false] (to_state_id 0)) as (r & E & H).
   - lia.
-  - cbn. lia.
+  - rewrite to_state_id_id. cbn [nlen]. lia.
   - rewrite E. rewrite <- H. split; [intro G; injection G; auto|intros ->; reflexivity].
 Qed.
